@@ -608,8 +608,9 @@ static void name_sweep_case(size_t L, unsigned variant) {
                 if (e != r) fail("next-before-lookup");
                 if (r) ss.check_current("name-sweep");
             }
+            Block probe(probes[pi]);  // its own exactly-sized block: a valid pointer also for the empty name
             bool e = ss.cur.field(probes[pi]);
-            bool r = binson_parser_field_with_length(p, (const char *)probes[pi].data(), probes[pi].size());
+            bool r = binson_parser_field_with_length(p, (const char *)probe.p, probe.n);
             if (e != r) fail(r ? "lookup-false-hit" : "lookup-false-miss");
             if (p->error_flags != BINSON_ERROR_NONE) fail("error-after-lookup");
             if (r) {
@@ -624,7 +625,7 @@ static void name_sweep_case(size_t L, unsigned variant) {
             }
             // second lookup of the same probe, then walk the rest
             e = ss.cur.field(probes[pi]);
-            r = binson_parser_field_with_length(p, (const char *)probes[pi].data(), probes[pi].size());
+            r = binson_parser_field_with_length(p, (const char *)probe.p, probe.n);
             if (e != r) fail("second-lookup");
             for (int k = 0; k < 5; k++) {
                 bool e2 = ss.cur.next(), r2 = binson_parser_next(p);
